@@ -38,7 +38,7 @@ func mustCallSites(e *Engine, fn *ssa.Function, target string, depth int) []ssa.
 			out = append(out, c)
 			continue
 		}
-		callee := c.Common().StaticCallee()
+		callee := Devirt(c.Common())
 		if e == nil || depth >= 3 || callee == nil || callee.Blocks == nil || callee.Pkg == nil || !smPkgs[callee.Pkg.Pkg.Path()] || callee == fn {
 			continue
 		}
@@ -184,14 +184,14 @@ func init() {
 					r.Check(okG, FuncKey(rh), "rebalance iff flag consumed", "RebalanceBondTokenWeights is on the true branch of ConsumeAssetRebalanceEvent", "the rebalance is not conditioned on the consumed flag", r.P(rb))
 					r.Check(argT(rfa, rb, 1).Op == "param", FuncKey(rh), "passes the asset list through", "assets parameter", "rebalance receives "+argT(rfa, rb, 1).String(), r.P(rb))
 					// the flag-true path must reach the rebalance: every path from the consume call on the true edge
-					ok2 := true
-					for _, ret := range Returns(rh) {
-						t := rfa.Term(ret.Results[0])
-						if t.Op == "const" && t.Name == "nil" {
-							if rfa.HasGuard(ret, func(g Guard) bool { return g.Pos && g.Cond.IsCall("keeper.Keeper.ConsumeAssetRebalanceEvent") }) {
-								ok2 = false
-							}
-						}
+					// every path from the consume call to a success exit passes the rebalance, except through the
+					// flag-false edge
+					ok2 := false
+					for _, cc := range CallsTo(rh, "keeper.Keeper.ConsumeAssetRebalanceEvent") {
+						trail := rfa.mustReachPruned(cc, []ssa.Instruction{rb}, func(ret *ssa.Return) bool { return !rfa.IsErrorExit(ret) }, func(g Guard) bool {
+							return !g.Pos && g.Cond.IsCall("keeper.Keeper.ConsumeAssetRebalanceEvent")
+						})
+						ok2 = trail == nil
 					}
 					r.Check(ok2, FuncKey(rh), "consumed flag always rebalances", "no nil return on the flag-true branch without rebalancing", "the flag can be consumed without running the rebalance", r.P(rb))
 				}
@@ -648,7 +648,7 @@ func init() {
 					continue
 				}
 				ma := argT(fa, ab, 1)
-				r.Check(ma.IsCall("authkeeper.AccountKeeper.GetModuleAddress", "types.AccountKeeper.GetModuleAddress") && moduleName(ma.CallArgsT()[len(ma.CallArgsT())-1]) == "alliance", k, "bonded amount of the alliance module address", "GetModuleAddress(alliance)", "bonded amount is computed for "+ma.String(), r.P(ab))
+				r.Check((ma.Op == "call" || ma.Op == "ncall") && strings.HasSuffix(ma.Name, ".GetModuleAddress") && moduleName(ma.CallArgsT()[len(ma.CallArgsT())-1]) == "alliance", k, "bonded amount of the alliance module address", "GetModuleAddress(alliance)", "bonded amount is computed for "+ma.String(), r.P(ab))
 				bonded := extractT(fa, ab, 0)
 				// the value returned on success subtracts `bonded`
 				found := false
